@@ -66,6 +66,9 @@ type frameEngine struct {
 	c         *Ctx
 	invFields map[*types.Var]bool
 	memoInv   map[ssa.Value]int // 1 inverse, 2 forward
+	// frames of helper-method parameters, joined over the call sites inside
+	// wrappers (-1: the sites disagree)
+	paramFrames map[*ssa.Parameter]int
 }
 
 // inverseDerived: is the Transform value an inverse (true) or forward (false)?
@@ -162,7 +165,7 @@ func (e *frameEngine) freeVarInverse(fv *ssa.FreeVar, depth int) bool {
 }
 
 func (c *Ctx) runFrames(rule string, pkgs []*packages.Package) {
-	e := &frameEngine{c: c, invFields: map[*types.Var]bool{}}
+	e := &frameEngine{c: c, invFields: map[*types.Var]bool{}, paramFrames: map[*ssa.Parameter]int{}}
 	// fields that hold inverse transforms: some store puts an inverse-derived
 	// value into them (constructors).
 	for round := 0; round < 2; round++ {
@@ -193,16 +196,22 @@ func (c *Ctx) runFrames(rule string, pkgs []*packages.Package) {
 			}
 		}
 	}
-	for _, p := range pkgs {
-		if p == nil {
-			continue
-		}
-		for _, fn := range c.srcFuncs(p) {
-			if !e.isWrapper(fn) {
+	// two collecting rounds (frames of helper parameters flow from call sites,
+	// possibly through one more helper), then the reporting round
+	for round := 0; round < 3; round++ {
+		for _, p := range pkgs {
+			if p == nil {
 				continue
 			}
-			c.analysed(qname(fn))
-			e.analyse(rule, fn)
+			for _, fn := range c.srcFuncs(p) {
+				if !e.isWrapper(fn) {
+					continue
+				}
+				if round == 2 {
+					c.analysed(qname(fn))
+				}
+				e.analyse(rule, fn, round == 2)
+			}
 		}
 	}
 }
@@ -237,10 +246,17 @@ func (e *frameEngine) isWrapper(fn *ssa.Function) bool {
 		check(fv.Type())
 	}
 	// constructors take both as parameters but do not answer queries
-	return hasT && hasObj
+	if hasT && hasObj {
+		return true
+	}
+	// a callback written inside a wrapper method
+	if p := fn.Parent(); p != nil && p.Signature.Recv() != nil {
+		return e.isWrapper(p)
+	}
+	return false
 }
 
-func (e *frameEngine) analyse(rule string, fn *ssa.Function) {
+func (e *frameEngine) analyse(rule string, fn *ssa.Function, report bool) {
 	c := e.c
 	memo := map[ssa.Value]int{}
 	inProg := map[ssa.Value]bool{}
@@ -278,7 +294,15 @@ func (e *frameEngine) analyse(rule string, fn *ssa.Function) {
 		res := frUnknown
 		switch x := v.(type) {
 		case *ssa.Parameter:
-			if frameCarrying(x.Type()) && x.Parent() == fn {
+			if pf, ok := e.paramFrames[x]; ok && x.Parent() == fn {
+				// a helper of the wrapper: what its call sites pass
+				if pf > 0 {
+					res = pf
+				}
+			} else if x.Parent() == fn && e.innerCallback(fn) {
+				// a callback handed to the wrapped object receives its results
+				res = frInner
+			} else if frameCarrying(x.Type()) && x.Parent() == fn {
 				// the receiver itself is not a query value
 				if fn.Signature.Recv() == nil || x != fn.Params[0] {
 					res = frOuter
@@ -361,8 +385,9 @@ func (e *frameEngine) analyse(rule string, fn *ssa.Function) {
 			}
 			var msgs []string
 			e.callFrame(fn, call, frame, &msgs)
+			e.recordHelperArgs(fn, call, frame)
 			role := e.callRole(call)
-			if role == "" {
+			if role == "" || !report {
 				continue
 			}
 			n++
@@ -485,4 +510,70 @@ func (e *frameEngine) helperResultFrame(f *ssa.Function) int {
 		return frOuter
 	}
 	return frUnknown
+}
+
+// wrapperRecv: the receiver type of the wrapper method fn belongs to (fn
+// itself or the method a callback is written in).
+func wrapperRecv(fn *ssa.Function) types.Type {
+	for f := fn; f != nil; f = f.Parent() {
+		if r := f.Signature.Recv(); r != nil {
+			return r.Type()
+		}
+	}
+	return nil
+}
+
+// recordHelperArgs: at a call of an unexported helper method of the same
+// wrapper type, the frames of the arguments become the frames of the helper's
+// parameters (joined over all sites).
+func (e *frameEngine) recordHelperArgs(fn *ssa.Function, call *ssa.Call, frame func(ssa.Value) int) {
+	f := call.Call.StaticCallee()
+	recv := wrapperRecv(fn)
+	if f == nil || f.Blocks == nil || f.Signature.Recv() == nil || recv == nil || !types.Identical(f.Signature.Recv().Type(), recv) {
+		return
+	}
+	if f.Object() == nil || f.Object().Exported() {
+		return // exported methods answer world-frame queries
+	}
+	for i, a := range call.Call.Args {
+		if i == 0 || i >= len(f.Params) {
+			continue
+		}
+		fa := frame(a)
+		p := f.Params[i]
+		old, seen := e.paramFrames[p]
+		switch {
+		case !seen:
+			e.paramFrames[p] = fa
+		case old != fa:
+			e.paramFrames[p] = -1
+		}
+	}
+}
+
+// innerCallback: fn is a function literal that is passed as an argument to a
+// query of the wrapped object (its parameters are that object's results).
+func (e *frameEngine) innerCallback(fn *ssa.Function) bool {
+	p := fn.Parent()
+	if p == nil {
+		return false
+	}
+	for _, b := range p.Blocks {
+		for _, ins := range b.Instrs {
+			mc, ok := ins.(*ssa.MakeClosure)
+			if !ok || mc.Fn != ssa.Value(fn) {
+				continue
+			}
+			for _, ref := range *mc.Referrers() {
+				if call, ok := ref.(*ssa.Call); ok && e.callRole(call) == "inner query" {
+					for _, a := range call.Call.Args {
+						if a == ssa.Value(mc) {
+							return true
+						}
+					}
+				}
+			}
+		}
+	}
+	return false
 }
